@@ -1086,4 +1086,120 @@ theorem inv_run (env : Env) (hist : List Op) (evs : List Ev) :
     Inv env hist (Sm.run (step env) (init hist) evs) :=
   Sm.invariant_run (Inv := Inv env hist) (fun _ ev h => inv_step h ev) evs _ (inv_init env hist)
 
+/-! ### frame lemmas and facts about single steps -/
+
+set_option linter.unusedSimpArgs false in
+theorem dead_step (env : Env) (s : State) (ev : Ev) (r : Nat) (h : dead s r = true) :
+    dead (step env s ev).1 r = true := by
+  cases ev <;> simp only [step] <;> repeat' split
+  all_goals first
+    | exact h
+    | (simp only [dead, cancel_dead] at h ⊢; simp at h ⊢; exact Or.inr h)
+    | (simp only [dead, finish_locks, dead_relLocks]; exact h)
+
+set_option linter.unusedSimpArgs false in
+theorem cancelled_step (env : Env) (s : State) (ev : Ev) (r : Nat) (hd : dead s r = true)
+    (hp : (s.run r).pc ≠ .acquiring true) :
+    ((step env s ev).1.run r).pc ≠ .acquiring true ∧
+    ((step env s ev).1.run r).launchedN = (s.run r).launchedN := by
+  cases ev <;> simp only [step] <;> repeat' split
+  all_goals first
+    | exact ⟨hp, rfl⟩
+    | exact ⟨hp, trivial⟩
+    | (simp only [setRun_run, setPc_run, finish_run]; split <;> simp_all)
+    | (simp only [State.setPc, State.setRun]; split <;> simp_all)
+    | (simp only [State.setPc, State.setRun]; exact ⟨hp, rfl⟩)
+
+/-- The worker an event belongs to. -/
+def Ev.worker : Ev → Option (Nat × Nat)
+  | .tryLock r i => some (r, i)
+  | .getOps r i => some (r, i)
+  | .fetch r i => some (r, i)
+  | .parse r i => some (r, i)
+  | .store r i => some (r, i)
+  | .status r i => some (r, i)
+  | .done r i => some (r, i)
+  | _ => none
+
+set_option linter.unusedSimpArgs false in
+theorem pc_frame (env : Env) (s : State) (ev : Ev) (r i : Nat) (h : ev.worker ≠ some (r, i)) :
+    (step env s ev).1.pc r i = s.pc r i := by
+  cases ev <;> simp only [step] <;> repeat' split
+  all_goals first
+    | rfl
+    | (simp only [Ev.worker, ne_eq, Option.some.injEq, Prod.mk.injEq] at h
+       simp only [finish_pc, setPc_pc, setRun_pc]
+       rw [if_neg (fun hh => h ⟨hh.1.symm, hh.2.symm⟩)])
+    | (simp only [Ev.worker, ne_eq, Option.some.injEq, Prod.mk.injEq] at h
+       simp only [State.setPc, State.setRun]
+       rw [if_neg (fun hh => h ⟨hh.1.symm, hh.2.symm⟩)])
+
+set_option linter.unusedSimpArgs false in
+theorem calls_frame (env : Env) (s : State) (ev : Ev) (r i : Nat) (h : ev.worker ≠ some (r, i)) :
+    callsOf (step env s ev).1 r i = callsOf s r i := by
+  cases ev with
+  | store r0 i0 =>
+    simp only [step]; split
+    · split
+      · simp only [Ev.worker, ne_eq, Option.some.injEq, Prod.mk.injEq] at h
+        have hf : ((r0 == r) && (i0 == i)) = false := by
+          cases hr : (r0 == r) <;> cases hi : (i0 == i) <;> simp_all
+        simp [callsOf, hf]
+      · rfl
+    · rfl
+  | done r0 i0 =>
+    simp only [step]; repeat' split
+    all_goals first
+      | rfl
+      | exact callsOf_congr (finish_calls ..) r i
+  | _ =>
+    simp only [step]; repeat' split
+    all_goals rfl
+
+
+/-- Pigeonhole: a duplicate-free list inside a list that is not longer covers it. -/
+theorem subset_of_nodup_length_le : ∀ (l m : List Nat), l.Nodup → (∀ x ∈ l, x ∈ m) → m.length ≤ l.length →
+    ∀ x ∈ m, x ∈ l := by
+  intro l
+  induction l with
+  | nil =>
+    intro m _ _ hlen x hx
+    have : m = [] := List.eq_nil_of_length_eq_zero (by simpa using hlen)
+    rw [this] at hx; cases hx
+  | cons a l ih =>
+    intro m hnd hsub hlen x hx
+    simp only [List.nodup_cons] at hnd
+    have ham : a ∈ m := hsub a List.mem_cons_self
+    have hsub' : ∀ y ∈ l, y ∈ m.erase a := by
+      intro y hy
+      have hne : y ≠ a := fun he => hnd.1 (he ▸ hy)
+      exact (List.mem_erase_of_ne hne).2 (hsub y (List.mem_cons_of_mem _ hy))
+    have hlen' : (m.erase a).length ≤ l.length := by
+      rw [List.length_erase_of_mem ham]
+      simp only [List.length_cons] at hlen
+      omega
+    by_cases hxa : x = a
+    · rw [hxa]; exact List.mem_cons_self
+    · exact List.mem_cons_of_mem _ (ih (m.erase a) hnd.2 hsub' hlen' x ((List.mem_erase_of_ne hxa).2 hx))
+
+theorem all_finished_of_unfinished_zero {s : State} {r : Nat} (h : unfinished s r = 0) :
+    ∀ i ∈ (s.run r).tried, (s.pc r i).isFinished = true := by
+  intro i hi
+  have := List.countP_eq_zero.1 h i hi
+  simpa using this
+
+/-- Launches still possible for a cancelled run: the one acquisition in progress. -/
+def budget (s : State) (r : Nat) : Nat :=
+  (s.run r).launchedN + (if (s.run r).pc = .acquiring true then 1 else 0)
+
+set_option linter.unusedSimpArgs false in
+theorem budget_step (env : Env) (s : State) (ev : Ev) (r : Nat) (hd : dead s r = true) :
+    budget (step env s ev).1 r ≤ budget s r := by
+  cases ev <;> simp only [step] <;> repeat' split
+  all_goals first
+    | exact Nat.le_refl _
+    | (simp only [budget, setRun_run, setPc_run, finish_run]; split <;> simp_all <;> omega)
+    | (simp only [budget, State.setPc, State.setRun]; split <;> simp_all <;> omega)
+    | (simp only [budget, State.setPc, State.setRun]; exact Nat.le_refl _)
+
 end ClairModel.Manager
